@@ -157,17 +157,44 @@ Definition ipath (x : item) : path :=
   | ISet _ p _ | IOps p _ | IRem p _ | IAdd _ p _ | IPost p => p
   end.
 
-(* the same item addressed relative to the child reached by the first key *)
-Definition irestrict (x : item) : item :=
+(* an item with its paths rewritten *)
+Definition imap (f : path -> path) (x : item) : item :=
   match x with
-  | IVal c => IVal (mkVC (tl (vc_path c)) (vc_new_path c) (vc_old c) (vc_new c))
-  | IType c => IType (mkTC (tl (tc_path c)) (tc_new_path c) (tc_old_ty c) (tc_new_ty c) (tc_old c) (tc_new c))
-  | ISet u p xs => ISet u (tl p) xs
-  | IOps p os => IOps (tl p) os
-  | IRem p v => IRem (tl p) v
-  | IAdd i p v => IAdd i (tl p) v
-  | IPost p => IPost (tl p)
+  | IVal c => IVal (mkVC (f (vc_path c)) (option_map f (vc_new_path c)) (vc_old c) (vc_new c))
+  | IType c => IType (mkTC (f (tc_path c)) (option_map f (tc_new_path c)) (tc_old_ty c) (tc_new_ty c) (tc_old c) (tc_new c))
+  | ISet u p xs => ISet u (f p) xs
+  | IOps p os => IOps (f p) os
+  | IRem p v => IRem (f p) v
+  | IAdd i p v => IAdd i (f p) v
+  | IPost p => IPost (f p)
   end.
+(* the same item addressed relative to the child reached by the first key *)
+Definition irestrict : item -> item := imap (@tl pkey).
+Definition istrip (n : nat) : item -> item := imap (@skipn pkey n).
+
+Lemma ipath_imap f x : ipath (imap f x) = f (ipath x).
+Proof. destruct x; reflexivity. Qed.
+
+Lemma imap_imap f g x : imap f (imap g x) = imap (fun p => f (g p)) x.
+Proof.
+  destruct x as [c|c| | | | |]; cbn; try reflexivity.
+  - destruct (vc_new_path c); reflexivity.
+  - destruct (tc_new_path c); reflexivity.
+Qed.
+
+Lemma imap_ext f g x : (forall p, f p = g p) -> imap f x = imap g x.
+Proof.
+  intros E. destruct x as [c|c| | | | |]; cbn; rewrite ?E; try reflexivity.
+  - destruct (vc_new_path c); cbn; rewrite ?E; reflexivity.
+  - destruct (tc_new_path c); cbn; rewrite ?E; reflexivity.
+Qed.
+
+Lemma imap_id x : imap (fun p => p) x = x.
+Proof.
+  destruct x as [c|c| | | | |]; cbn; try reflexivity.
+  - destruct c as [p [np|] o n]; reflexivity.
+  - destruct c as [p [np|] a b o n]; reflexivity.
+Qed.
 
 Section Steps.
 Variable conv : ty -> value -> option value.
